@@ -18,6 +18,10 @@ Lemma Forall2_iff {A B} (P Q : A -> B -> Prop) a b :
   (forall x y, P x y <-> Q x y) -> (Forall2 P a b <-> Forall2 Q a b).
 Proof. intros H. split; intros F; induction F; constructor; auto; apply H; auto. Qed.
 
+Lemma Forall2_impl {A B} (P Q : A -> B -> Prop) a b :
+  (forall x y, P x y -> Q x y) -> Forall2 P a b -> Forall2 Q a b.
+Proof. intros H F. induction F; constructor; auto. Qed.
+
 Lemma Forall_iff {A} (P Q : A -> Prop) l : (forall x, P x <-> Q x) -> (Forall P l <-> Forall Q l).
 Proof. intros H. split; intros F; induction F; constructor; auto; apply H; auto. Qed.
 
